@@ -7,6 +7,7 @@ re-evaluated after loading (C12 evaluator); for yml text an expectation built by
 from __future__ import annotations
 
 import math
+import re
 import os
 import struct
 
@@ -202,7 +203,7 @@ def f9c_model(orig, loaded):
     return True
 
 
-def xlsx_models(orig, loaded):
+def xlsx_models(orig, loaded, allow_g16=True):
     """-> 'F9c' if every float difference is explained by openpyxl's %.16g; 'F9g' if additionally
     missing entries of a column that holds an integral value >= 2**63 came back as the string 'None'
     (pandas turns such a column into an object column and skips NA conversion); else None."""
@@ -224,9 +225,9 @@ def xlsx_models(orig, loaded):
                     continue
                 return None
             va, vb = float(va), float(vb)
-            if not (same(g16(va), vb) or same(va, vb)):
+            if not ((allow_g16 and same(g16(va), vb)) or same(va, vb)):
                 return None
-    return "F9g" if used_g else "F9c"
+    return "F9g" if used_g else ("F9c" if allow_g16 else None)
 
 
 def known_finding_for_exception(case, ext, e):
@@ -239,6 +240,21 @@ def known_finding_for_exception(case, ext, e):
                 v = p.get(f)
                 if isinstance(v, float) and math.isfinite(v) and math.isinf(g16(v)):
                     return "F9c"
+    m = re.fullmatch(r"Column '(minimum|maximum|value)' in '(.+)' has non numeric values\.", str(e)) if isinstance(e, ValueError) else None
+    if ext in ("xlsx", "ods") and m:
+        # F9g predicate: that column holds a finite value >= 2**63 (comes back as a Python int that does not fit int64);
+        # bug model: pandas itself returns the column with dtype object holding such an int
+        col, path = m.group(1), m.group(2)
+        pred = any(isinstance(p.get(col), float) and math.isfinite(p[col]) and abs(g16(p[col])) >= 2.0**63 for p in case["params"])
+        if pred:
+            try:
+                import pandas as pd
+
+                raw = pd.read_excel(path)[col]
+                if raw.dtype == object and any(isinstance(v, int) and abs(v) >= 2**63 for v in raw):
+                    return "F9g"
+            except Exception:  # noqa
+                pass
     if ext in ("xlsx", "ods") and isinstance(e, ValueError) and str(e) == "'nan' is not a valid parameter label.":
         tokens = set(pp.STR_NA_VALUES) | {"None", "none"}
         if any(p["label"] in tokens for p in case["params"]):
@@ -286,8 +302,8 @@ def roundtrip(case, fmt, rec, scratch):
         return
     rec.count("roundtrips_compared")
     bad = compare(p, q)
-    if ext == "xlsx" and bad and all(m.startswith("float-changed") for m, _ in bad):
-        which = xlsx_models(p, q)
+    if ext in ("xlsx", "ods") and bad and all(m.startswith("float-changed") for m, _ in bad):
+        which = xlsx_models(p, q, allow_g16=ext == "xlsx")
         if which:
             for mech, detail in bad:
                 rec.violation(f"{which}:{ext}:{mech.split(':')[0]}", ctx, detail, which)
